@@ -1,6 +1,6 @@
 """C19 — contracts see exactly the block context the indexer supplied."""
 from report import Report
-from terms import origin, show, mentions, calls_in, control_deps, bool_edge
+from terms import origin, show, mentions, calls_in, control_deps, bool_edge, leaves
 import wire as W
 import enginerules as ER
 import roles
@@ -25,7 +25,7 @@ def run(ctx):
         "simulation sets it per call; the current-txid helper is registered only on the `spec >= PRAGUE` edge; BLOCKHASH is served "
         "by the cache-first block-hash table. revm's mapping from environment to opcodes is NOT decided.")
     R.trusted = ["rustc resolution/MIR (A1)", "revm maps BlockEnv/CfgEnv/TxEnv fields to the corresponding opcodes (A3)"]
-    ge = F.fn_opt("engine::evm::get_evm")
+    ge = F.inlined(F.fn_opt("engine::evm::get_evm"))
     if ge is None:
         R.violation("ANCHOR", "src/engine/evm.rs", "ANCHOR|get_evm", "get_evm not found")
         return R
@@ -187,7 +187,7 @@ def run(ctx):
                     R.ob(ok2, "WIRE", f.where(), "WIRE|provider.run|block_height", "precompile block height is not ctx.block().number()")
         R.ob(ok, "WIRE", f.where(), "WIRE|provider.run|txid", "the precompile call does not receive the provider's op_return_tx_id",
              sample={"rule": "WIRE", "sink": "PrecompileCall.current_op_return_tx_id", "origin": "self.op_return_tx_id"})
-    pnew = [f for f in F.fns.values() if f.name.endswith("BRC20Precompiles::new")]
+    pnew = [F.inlined(f) for f in F.fns.values() if f.name.endswith("BRC20Precompiles::new")]
     for f in pnew:
         ins = [c for c in f.calls() if (c.method or "") == "insert" and "HashMap" in (c.target_path or "") and not f.is_cleanup(c.bb)
                and mentions(origin(f, c.args[1]), "GET_OP_RETURN_TX_ID_PRECOMPILE_ADDRESS")]
@@ -231,14 +231,17 @@ def run(ctx):
         from tablerules import self_fields
         R.ob(bool(c) and self_fields(origin(f, c[0].args[0]))[:1] == ["db_block_number_to_hash"], "WIRE", f.where(), "WIRE|get_block_hash|table", "block hashes are not read from the number->hash table")
     # spec selection
-    gs = F.fn_opt("engine::hardforks::get_evm_spec")
+    gs = F.inlined(F.fn_opt("engine::hardforks::get_evm_spec"))
     if gs:
         forms = edge_forms(gs)
         consts = set()
         for (b, s, fm, line) in forms:
             consts |= {c.split("::")[-1] for c in fm.lin.consts}
-            if fm.rel == "<=":
-                pass
+            # the activation height may reach the comparison through a helper's `Some(CONST)` alternatives
+            for a in fm.lin.terms:
+                for lf in leaves(a):
+                    if lf[0] == "const" and isinstance(lf[1], str):
+                        consts.add(lf[1].split("::")[-1])
         R.ob({"PRAGUE_ACTIVATION_HEIGHT_MAINNET", "PRAGUE_ACTIVATION_HEIGHT_SIGNET"} <= consts, "GUARD", gs.where(), "GUARD|get_evm_spec|heights",
              "spec selection no longer compares the height with both activation constants (%s)" % sorted(consts), sample={"rule": "GUARD", "fn": "get_evm_spec", "consts": sorted(consts)})
         for (b, s, fm, line) in forms:
